@@ -417,6 +417,43 @@ def o_tucker(c):
 
 
 @st.composite
+def _tucker_fixed_case(draw):
+    """tucker with a user init and a subset of fixed factors, unequal ranks"""
+    x = draw(_tensor(3, 4, 2, 4, max_size=300))
+    nd = len(x["s"])
+    ranks = [draw(st.integers(1, s)) for s in x["s"]]
+    k = draw(st.integers(1, nd - 1))
+    fixed = sorted(draw(st.permutations(list(range(nd))))[:k])
+    return {"x": x, "rank": ranks, "fixed": fixed, "seed": draw(st.integers(0, 10 ** 6)),
+            "n_iter": draw(st.sampled_from([1, 2, 4])), "rank_as": draw(st.sampled_from(["list", "tuple"]))}
+
+
+def o_tucker_fixed(c):
+    x = _data(c)
+    rs = np.random.RandomState(c["seed"])
+    ranks = [int(r) for r in c["rank"]]
+    core0 = rs.standard_normal(ranks)
+    facs0 = [np.linalg.qr(rs.standard_normal((s, s)))[0][:, :r] for s, r in zip(x.shape, ranks)]
+    rank_arg = list(ranks) if c["rank_as"] == "list" else tuple(ranks)
+    res = tucker(x.copy(), rank_arg, fixed_factors=list(c["fixed"]), init=(core0.copy(), [f.copy() for f in facs0]),
+                 n_iter_max=c["n_iter"], tol=0)
+    try:
+        core, facs = res
+        facs = list(facs)
+    except Exception:  # noqa
+        raise Fail("tucker_fixed/structure", "result is not (core, factors)")
+    check(len(facs) == x.ndim, "tucker_fixed/structure", f"{len(facs)} factors for order {x.ndim}")
+    for m, f in enumerate(facs):
+        assert_shape(f, (x.shape[m], ranks[m]), "tucker_fixed/factor_shape")
+    assert_shape(core, ranks, "tucker_fixed/core_shape")
+    for m in range(x.ndim):
+        if m not in c["fixed"]:
+            orthonormal_cols(facs[m], "tucker_fixed/orthonormal", f"free factor of mode {m}")
+    return {"nontrivial": len(set(ranks)) > 1, "labels": [f"order={x.ndim}", f"n_fixed={len(c['fixed'])}",
+                                                          f"unequal_ranks={len(set(ranks)) > 1}"]}
+
+
+@st.composite
 def _partial_case(draw):
     x = draw(_tensor(2, 4, 1, 4, max_size=300))
     nd = len(x["s"])
@@ -884,6 +921,7 @@ def subchecks(tier):
     S.append(SubCheck("cmtf/normalized", _cmtf_case(True), o_cmtf, quick=80, thorough=800, discard_exc=LIN))
     S.append(SubCheck("tucker/hooi", _tucker_case(), o_tucker, quick=200, thorough=2000, discard_exc=LIN))
     S.append(SubCheck("partial_tucker/hooi", _partial_case(), o_partial, quick=200, thorough=2000, discard_exc=LIN))
+    S.append(SubCheck("tucker/fixed_factors_ranks", _tucker_fixed_case(), o_tucker_fixed, quick=100, thorough=1000, discard_exc=LIN))
     for algo in ("mu", "hals"):
         S.append(SubCheck(f"nn_tucker_{algo}/plain", _nntucker_case(algo, False), o_nntucker, quick=80, thorough=800, discard_exc=LIN))
         S.append(SubCheck(f"nn_tucker_{algo}/normalized", _nntucker_case(algo, True), o_nntucker, quick=100, thorough=1000, discard_exc=LIN))
